@@ -255,6 +255,9 @@ def run(rep: core.Report):
 
     _run_main(rep)
     shared_trunc.run(rep, "R03e")
+    from rules import c13
+
+    c13.tolerance_degree(rep, "R03f")
 
 
 def selftest():
@@ -273,6 +276,7 @@ def selftest():
     b("derivative symmetrisation starts at the component index", DDM, "        for (j = 0; j < num_patom * 3; j++) {\n            for (k = 0; k < num_patom * 3; k++) {\n                adrs = i * num_patom * num_patom * 9", "        for (j = i; j < num_patom * 3; j++) {\n            for (k = 0; k < num_patom * 3; k++) {\n                adrs = i * num_patom * num_patom * 9", "R03a", "visits every pair")
     V.append(dict(name="derivative symmetrisation over the upper triangle", kind="neutral", file=DDM, old="            for (k = 0; k < num_patom * 3; k++) {\n                adrs = i * num_patom * num_patom * 9", new="            for (k = j; k < num_patom * 3; k++) {\n                adrs = i * num_patom * num_patom * 9"))
     b("unit cell masses not updated", API, "        self._unitcell.set_masses(u_masses)\n", "", "R03c", "cells that receive masses")
+    b("equidistant images decided on squared lengths", "c/phonopy.c", "                length[k] = sqrt(length[k]);\n            }\n\n            minimum = DBL_MAX;\n            for (k = 0; k < num_lattice_points; k++) {\n                if (length[k] < minimum) {\n                    minimum = length[k];\n                }\n            }\n\n            count = 0;\n            for (k = 0; k < num_lattice_points; k++) {\n                if (length[k] - minimum < symprec) {\n                    if (!initialize) {", "            }\n\n            minimum = DBL_MAX;\n            for (k = 0; k < num_lattice_points; k++) {\n                if (length[k] < minimum) {\n                    minimum = length[k];\n                }\n            }\n\n            count = 0;\n            for (k = 0; k < num_lattice_points; k++) {\n                if (length[k] - minimum < symprec * symprec) {\n                    if (!initialize) {", "R03f", "dense")
     from rules import shared_trunc
 
     shared_trunc.variants(b, None, "R03e")
